@@ -7,6 +7,8 @@
 (* with client-side invocation / return instants (integers taken from one  *)
 (* monotonic counter).  op in {"put","del","get","head"}.                   *)
 (*   put: arg = write id; res in {"ok","fail"}                              *)
+(*   create: like put but only on an absent key (res "exists": it was not)  *)
+(*   upd:    like put but only on a present key (res "absent": it was not)  *)
 (*   del: res in {"ok","fail"}    (deleting an absent key is "ok" in S3)    *)
 (*   get/head: res in {"ok","absent","fail"}; for "ok" the fields body,     *)
 (*        len, etag, meta name the write each part of the reply came from   *)
@@ -35,6 +37,12 @@ Minimal(R) == {o \in R : \A q \in R : ~(q.ret < o.inv)}
 \* (empty set: o cannot be placed here)
 After(reg, o) ==
     CASE o.op = "put" -> IF o.res = "ok" THEN {o.arg} ELSE {o.arg, reg}
+      [] o.op = "create" -> IF o.res = "ok" THEN (IF reg = Absent THEN {o.arg} ELSE {})
+                             ELSE IF o.res = "exists" THEN (IF reg # Absent THEN {reg} ELSE {})
+                             ELSE {o.arg, reg}
+      [] o.op = "upd" -> IF o.res = "ok" THEN (IF reg # Absent THEN {o.arg} ELSE {})
+                          ELSE IF o.res = "absent" THEN (IF reg = Absent THEN {reg} ELSE {})
+                          ELSE {o.arg, reg}
       [] o.op = "del" -> IF o.res = "ok" THEN {Absent}
                           ELSE IF o.res = "absent" THEN (IF reg = Absent THEN {reg} ELSE {})
                           ELSE {Absent, reg}
@@ -71,4 +79,21 @@ Classify(init, H) ==
     ELSE IF ~NoSpuriousMissing(init, H) THEN "spurious-missing"
     ELSE IF ~Linearizable(init, H) THEN "not-linearizable"
     ELSE "ok"
+
+(***************************************************************************)
+(* C17 reads the register differently: the statement judges only LOOKUPS   *)
+(* ("once a change is acknowledged every later request is authenticated    *)
+(* against the new state"); the answers of the mutations themselves are     *)
+(* taken as facts (an update answered NoSuchUser, a create answered         *)
+(* UserExists had no effect).  Each lookup, alone with the effective        *)
+(* mutations, must be explainable.                                          *)
+(***************************************************************************)
+IsMutation(o) == o.op \in {"put", "create", "upd", "del"}
+Effective(H) == {[o EXCEPT !.op = IF o.op = "del" THEN "del" ELSE "put"] : o \in {m \in H : IsMutation(m) /\ m.res \in {"ok", "fail"}}}
+ReadOK(init, H, r) == Lin(init, Effective(H) \cup {r})
+BadReads(init, H) == {r \in H : ~IsMutation(r) /\ ~ReadOK(init, H, r)}
+AcctHistoryOK(init, H) == NoTornRead(H) /\ BadReads(init, H) = {}
+ClassifyAcct(init, H) ==
+    IF ~NoTornRead(H) THEN "torn" ELSE IF BadReads(init, H) # {} THEN "not-linearizable" ELSE "ok"
+CulpritsAcct(init, H) == {[op |-> o.op, res |-> o.res] : o \in BadReads(init, H)}
 =============================================================================
